@@ -1,13 +1,14 @@
 // C09 — killing git-lfs at any instant never leaves a bad object in local storage.
 //
 // Monitors:
-//  (a) hook enumeration: a discovery run logs every reached crash point (verifhook.Crash)
-//      of a scenario; then one run per (point, ordinal) with SIGKILL injected there, the
-//      storage oracle, a re-run of the same command and comparison with the golden state;
-//  (b) strace sweep: SIGKILL injected at the N-th write/rename/link/unlink/openat syscall
-//      of the git-lfs process (hook-free sampling of crash instants);
-//  (c) write-discipline trace specification on uninterrupted runs: no file under
-//      lfs/objects is ever opened for writing/creation — objects appear by rename/link only.
+//
+//	(a) hook enumeration: a discovery run logs every reached crash point (verifhook.Crash)
+//	    of a scenario; then one run per (point, ordinal) with SIGKILL injected there, the
+//	    storage oracle, a re-run of the same command and comparison with the golden state;
+//	(b) strace sweep: SIGKILL injected at the N-th write/rename/link/unlink/openat syscall
+//	    of the git-lfs process (hook-free sampling of crash instants);
+//	(c) write-discipline trace specification on uninterrupted runs: no file under
+//	    lfs/objects is ever opened for writing/creation — objects appear by rename/link only.
 package main
 
 import (
@@ -105,6 +106,45 @@ func pointerClone(env *sbx.Env, srv *fakelfs.Server, r *rand.Rand, n int, parts 
 	return repo
 }
 
+const agentPy = `#!/usr/bin/python3
+import sys, json, os, shutil, tempfile
+store, scratch = sys.argv[1], sys.argv[2]
+for line in sys.stdin:
+    m = json.loads(line)
+    ev = m.get("event")
+    if ev == "init":
+        print("{}", flush=True)
+    elif ev == "download":
+        oid = m["oid"]
+        fd, p = tempfile.mkstemp(dir=scratch)
+        os.close(fd)
+        try:
+            shutil.copyfile(os.path.join(store, oid), p)
+            print(json.dumps({"event": "complete", "oid": oid, "path": p}), flush=True)
+        except Exception as e:
+            print(json.dumps({"event": "complete", "oid": oid, "error": {"code": 2, "message": str(e)}}), flush=True)
+    elif ev == "terminate":
+        break
+`
+
+// pointerCloneKeep: like pointerClone, and the objects are also kept in <root>/agent-store/<oid> for the agent.
+func pointerCloneKeep(env *sbx.Env, srv *fakelfs.Server, r *rand.Rand, n int) string {
+	repo := env.InitRepo("repo")
+	writeFile(filepath.Join(repo, ".gitattributes"), []byte(attrs))
+	for i := 0; i < n; i++ {
+		b := randBytes(r, 3000+r.Intn(150000))
+		oid := srv.Put("r", b)
+		writeFile(filepath.Join(env.Root, "agent-store", oid), b)
+		writeFile(filepath.Join(repo, fmt.Sprintf("d%d/f%d.bin", i%2, i)), []byte(ptrspec.Canonical(ptrspec.Pointer{Oid: oid, Size: int64(len(b))})))
+	}
+	env.PlainGit(repo, "add", "-A")
+	env.PlainGit(repo, "commit", "-q", "-m", "pointers")
+	env.MustGit(repo, "config", "lfs.url", srv.Endpoint("r"))
+	env.MustGit(repo, "config", "lfs.locksverify", "false")
+	env.MustGit(repo, "remote", "add", "origin", srv.URL+"/r.git")
+	return repo
+}
+
 func scenarios(thorough bool) []scenario {
 	sc := []scenario{
 		{name: "git-add-filter-process", prog: "git", args: []string{"add", "-A"}, crashCmd: "filter-process",
@@ -117,7 +157,9 @@ func scenarios(thorough bool) []scenario {
 				return repo
 			}},
 		{name: "lfs-fetch-with-parts", prog: "git-lfs", args: []string{"fetch", "origin", "main"}, crashCmd: "fetch", direct: true,
-			build: func(env *sbx.Env, srv *fakelfs.Server, r *rand.Rand) string { return pointerClone(env, srv, r, 4, true) }},
+			build: func(env *sbx.Env, srv *fakelfs.Server, r *rand.Rand) string {
+				return pointerClone(env, srv, r, 4, true)
+			}},
 		{name: "lfs-fsck-repair", prog: "git-lfs", args: []string{"fsck"}, crashCmd: "fsck", direct: true, wantExit: 1,
 			build: func(env *sbx.Env, srv *fakelfs.Server, r *rand.Rand) string {
 				repo, _ := sourceRepo(env, srv, r, "repo", 5)
@@ -141,7 +183,9 @@ func scenarios(thorough bool) []scenario {
 				return repo
 			}},
 		{name: "lfs-pull", prog: "git-lfs", args: []string{"pull"}, crashCmd: "pull", direct: true, wtWriter: true,
-			build: func(env *sbx.Env, srv *fakelfs.Server, r *rand.Rand) string { return pointerClone(env, srv, r, 4, false) }},
+			build: func(env *sbx.Env, srv *fakelfs.Server, r *rand.Rand) string {
+				return pointerClone(env, srv, r, 4, false)
+			}},
 		{name: "git-checkout-smudge-download", prog: "git", args: []string{"checkout", "-f", "HEAD", "--", "."}, crashCmd: "filter-process", wtWriter: true,
 			build: func(env *sbx.Env, srv *fakelfs.Server, r *rand.Rand) string {
 				repo := pointerClone(env, srv, r, 3, false)
@@ -228,6 +272,37 @@ func scenarios(thorough bool) []scenario {
 			os.RemoveAll(filepath.Join(dst, ".git", "lfs", "objects"))
 			return dst
 		}})
+	// custom transfer agent (standalone): the agent hands git-lfs a finished temporary file which git-lfs
+	// verifies and moves into the store; once with the agent's scratch directory on the store's
+	// filesystem and once on another one (rename fails with EXDEV)
+	for _, other := range []bool{false, true} {
+		other := other
+		name, want := "custom-agent-fetch", 0
+		if other {
+			name, want = "custom-agent-scratch-on-other-filesystem", -1
+		}
+		more = append(more, scenario{name: name, prog: "git-lfs", args: []string{"fetch", "origin", "main"}, crashCmd: "fetch", direct: true, wantExit: want,
+			build: func(env *sbx.Env, srv *fakelfs.Server, r *rand.Rand) string {
+				repo := pointerCloneKeep(env, srv, r, 3)
+				scratch := filepath.Join(env.Root, "agent-scratch")
+				if other {
+					shm, err := os.MkdirTemp("/dev/shm", "verif-c09-agent-")
+					if err != nil {
+						panic("no /dev/shm: " + err.Error())
+					}
+					shmDirs = append(shmDirs, shm)
+					scratch = shm
+				}
+				os.MkdirAll(scratch, 0o755)
+				agent := filepath.Join(env.Root, "verif-agent.py")
+				writeFile(agent, []byte(agentPy))
+				os.Chmod(agent, 0o755)
+				env.MustGit(repo, "config", "lfs.customtransfer.va.path", agent)
+				env.MustGit(repo, "config", "lfs.customtransfer.va.args", filepath.Join(env.Root, "agent-store")+" "+scratch)
+				env.MustGit(repo, "config", "lfs.standalonetransferagent", "va")
+				return repo
+			}})
+	}
 	if thorough {
 		return append(sc, more...)
 	}
@@ -333,7 +408,7 @@ type job struct {
 func main() {
 	run := evid.New("C09", "fault_enumeration")
 	defer sbx.RemoveBase()
-	run.Rule = "per scenario {git add via filter-process, one-shot clean, fetch of N objects with resume parts, pull, checkout with smudge download, migrate import, fsck repair of corrupt objects, prune, pull in a clone with a reference store}: a discovery run logs every reached verif crash point (temp-file creation, each copy burst, rename into place, link/copy from a reference store, move to bad/, unlink); one SIGKILL run per (point, scenario-wide ordinal); plus an strace sweep injecting SIGKILL at the N-th write/rename/link/unlink/openat of the git-lfs process; plus a write-discipline trace check (no open-for-write below lfs/objects) on uninterrupted runs. Oracle after each kill: every file under lfs/objects hashes to its name, leftovers only in lfs/tmp|incomplete|bad|cache|logs, re-running the command exits as the uninterrupted run and ends with the same object (and bad/) set as the golden run. Class = (scenario, kill kind, crash point)."
+	run.Rule = "per scenario {git add via filter-process, one-shot clean, fetch of N objects with resume parts, pull, checkout with smudge download, migrate import, fsck repair of corrupt objects, prune, pull in a clone with a reference store, fetch with the reference store on another filesystem, fetch through a standalone custom transfer agent with its scratch directory on the same / another filesystem}: a discovery run logs every reached verif crash point (temp-file creation, each copy burst, rename into place, link/copy from a reference store, move to bad/, unlink); one SIGKILL run per (point, scenario-wide ordinal); plus an strace sweep injecting SIGKILL at the N-th write/rename/link/unlink/openat of the git-lfs process; plus a write-discipline trace check (no open-for-write below lfs/objects) on uninterrupted runs. Oracle after each kill: every file under lfs/objects hashes to its name, leftovers only in lfs/tmp|incomplete|bad|cache|logs, re-running the command exits as the uninterrupted run and ends with the same object (and bad/) set as the golden run. Class = (scenario, kill kind, crash point)."
 	run.Assumptions = []string{"crash = SIGKILL of a git-lfs process (not power loss); instants between two hooked points are sampled at syscall granularity by the strace sweep only", "strace's when=N counts per thread, so the sweep is sampling: the syscall actually hit is whatever the N-th one of that class was"}
 	all := scenarios(run.Thorough())
 	var chosen []scenario
@@ -349,15 +424,30 @@ func main() {
 		}
 	} else {
 		chosen = append(chosen, all[:3]...)
-		rest := all[3:]
+		// the rest rotates with the seed, except that the scenarios whose temporary area lies on another
+		// filesystem (rename/link fail with EXDEV and a fallback runs) are always included
+		var rest []scenario
+		for _, sc := range all[3:] {
+			if strings.Contains(sc.name, "other-filesystem") {
+				chosen = append(chosen, sc)
+			} else {
+				rest = append(rest, sc)
+			}
+		}
 		k := int(run.Seed) % len(rest)
 		if k < 0 {
 			k = -k
 		}
 		chosen = append(chosen, rest[k], rest[(k+1)%len(rest)])
-		if last := rest[len(rest)-1]; last.name != rest[k].name && last.name != rest[(k+1)%len(rest)].name {
-			chosen = append(chosen, last)
+	}
+	if only := os.Getenv("VERIF_C09_ONLY"); only != "" { // debugging aid: restrict to scenarios whose name contains the value
+		var f []scenario
+		for _, sc := range all {
+			if strings.Contains(sc.name, only) {
+				f = append(f, sc)
+			}
 		}
+		chosen = f
 	}
 	maxHook := run.N(45, 400)
 	maxStrace := run.N(14, 80)
@@ -399,6 +489,11 @@ func main() {
 			args := append([]string{"-f", "-qq", "-y", "-e", "trace=openat,open,creat,rename,renameat,renameat2,link,linkat,unlink,unlinkat,truncate,ftruncate", "-o", strlog, sc.prog}, sc.args...)
 			res := env.Run(sc.opt(work, []string{"VERIF_CRASH_LOG=" + clog, "VERIF_CRASH_GLOBAL=1"}), "strace", args...)
 			run.Count("uninterrupted_runs", 1)
+			if sc.wantExit == -1 && !res.GoCrash() && res.Signal == "" {
+				// the uninterrupted run's own exit status is the reference (the command is expected to fail cleanly)
+				sc.wantExit = res.Code
+				run.Count("scenarios_whose_uninterrupted_run_fails_cleanly", 1)
+			}
 			if res.Code != sc.wantExit {
 				run.Inconclusive(fmt.Sprintf("scenario %s: uninterrupted run exited %d, expected %d: %s", sc.name, res.Code, sc.wantExit, sbx.Trunc(res.Stderr, 600)))
 				return
@@ -513,33 +608,67 @@ func main() {
 		}
 	}
 
+	// Jobs are grouped: ordinal sweeps of one (scenario, syscall class[, path]) run in ascending order within
+	// one group and stop after two consecutive ordinals at which the process ended before the N-th such
+	// syscall happened (later ordinals cannot be delivered either); every hook job is its own group.
+	groupOf := map[string][]job{}
+	var order []string
+	for i, j := range jobs {
+		key := fmt.Sprintf("%s|%s|%s|%s", j.sc.name, j.kind, j.sys, j.path)
+		if j.kind == "hook" {
+			key += fmt.Sprint("|", i)
+		}
+		if _, ok := groupOf[key]; !ok {
+			order = append(order, key)
+		}
+		groupOf[key] = append(groupOf[key], j)
+	}
 	var wg sync.WaitGroup
-	ch := make(chan job)
+	ch := make(chan []job)
 	var seq int64
 	var smu sync.Mutex
 	for w := 0; w < runtime.NumCPU(); w++ {
 		wg.Add(1)
 		go func() {
 			defer wg.Done()
-			for j := range ch {
-				p := prepOf[j.sc.name]
-				smu.Lock()
-				seq++
-				id := seq
-				smu.Unlock()
-				func() {
-					defer func() {
-						if x := recover(); x != nil {
-							run.Inconclusive(fmt.Sprintf("%s %v: harness panic %v", j.sc.name, j.p, x))
+			for g := range ch {
+				sort.SliceStable(g, func(a, b int) bool { return g[a].p.n < g[b].p.n })
+				misses := 0
+				lastN := -1
+				for gi, j := range g {
+					if j.kind != "hook" && j.p.n == lastN {
+						continue
+					}
+					lastN = j.p.n
+					if misses >= 2 {
+						run.Count("ordinals_skipped_beyond_end_of_process", int64(len(g)-gi))
+						break
+					}
+					p := prepOf[j.sc.name]
+					smu.Lock()
+					seq++
+					id := seq
+					smu.Unlock()
+					func() {
+						defer func() {
+							if x := recover(); x != nil {
+								run.Inconclusive(fmt.Sprintf("%s %v: harness panic %v", j.sc.name, j.p, x))
+							}
+						}()
+						if killOne(run, p.env, p.pre, p.golden, j, id) {
+							misses = 0
+						} else {
+							misses++
 						}
 					}()
-					killOne(run, p.env, p.pre, p.golden, j, id)
-				}()
+				}
 			}
 		}()
 	}
-	for _, j := range jobs {
-		ch <- j
+	// long groups first
+	sort.SliceStable(order, func(a, b int) bool { return len(groupOf[order[a]]) > len(groupOf[order[b]]) })
+	for _, k := range order {
+		ch <- groupOf[k]
 	}
 	close(ch)
 	wg.Wait()
@@ -578,7 +707,7 @@ func checkDiscipline(run *evid.Run, scen, log string) int {
 	return n
 }
 
-func killOne(run *evid.Run, env *sbx.Env, pre string, golden storeState, j job, id int64) {
+func killOne(run *evid.Run, env *sbx.Env, pre string, golden storeState, j job, id int64) (delivered bool) {
 	work := filepath.Join(env.Root, fmt.Sprintf("k%d", id))
 	if err := copyTree(pre, work); err != nil {
 		panic(err)
@@ -614,8 +743,9 @@ func killOne(run *evid.Run, env *sbx.Env, pre string, golden storeState, j job, 
 	run.Count("kill_runs", 1)
 	if !killed {
 		run.Count("kill_not_delivered", 1)
-		return
+		return false
 	}
+	delivered = true
 	run.Count("kills_delivered_"+j.kind, 1)
 	run.Case(class, map[string]any{"scenario": sc.name, "kind": j.kind, "point": j.p.point, "ordinal": j.p.n, "syscalls": j.sys})
 	trig := sc.name + "/" + j.p.point
@@ -660,6 +790,7 @@ func killOne(run *evid.Run, env *sbx.Env, pre string, golden storeState, j job, 
 		detail["final"] = final.String()
 		run.Violation(evid.Sig{Symptom: "rerun-state-differs-from-uninterrupted-run", Trigger: trig}, fmt.Sprintf("after kill + re-run: %s; uninterrupted run: %s", final, golden), detail)
 	}
+	return
 }
 
 func superset(a, b []string) bool {
